@@ -9,11 +9,13 @@ mod rtext;
 mod common;
 mod cprref;
 mod e1;
+mod e2;
 mod enc;
 mod fields;
 mod proj;
 mod refdec;
 mod tools;
+mod vclock;
 
 use common::{silence_panics, Tier};
 
@@ -43,7 +45,12 @@ fn main() {
         "C09" => fields::generic(tier, "C09", &[9]),
         "C10" => fields::generic(tier, "C10", &[10]),
         "C11" => c11::run(tier),
+        "C12" => e2::c12(tier),
+        "C13" => e2::c13(tier),
+        "C14" => e2::c14(tier),
+        "C15" => e2::c15(tier),
         "replay" => fields::replay(&args[2]),
+        "history" => e2::replay_history(&args[2]),
         "mkfeed" => tools::mkfeed(),
         "feed2table" => tools::feed2table(&args[2..]),
         other => {
